@@ -88,14 +88,43 @@ class RNode:
 
 
 def rewrite_regex_module_classes(pattern: str) -> str:
-    """\\p{L}-style classes of the third-party `regex` module -> placeholder classes sre can parse."""
+    """\\p{L}-style classes of the third-party `regex` module -> ranges sre can parse (bare ranges when the class is
+    already inside a [...] set, a bracketed set otherwise)."""
     repl = {
-        r"\p{L}": "[A-Za-zÀ-￿]", r"\p{Ll}": "[a-zß-ÿ]", r"\p{Lu}": "[A-ZÀ-Þ]",
-        r"\p{N}": "[0-9]", r"\p{P}": r"[!-/:-@\[-`{-~]",
+        "L": "A-Za-z\u00c0-\uffff", "Ll": "a-z\u00df-\u00ff", "Lu": "A-Z\u00c0-\u00de",
+        "N": "0-9", "P": r"!-/:-@\[-`{-~",
     }
-    for k, v in repl.items():
-        pattern = pattern.replace(k, v)
-    return pattern
+    out: list[str] = []
+    i, n, in_set = 0, len(pattern), False
+    while i < n:
+        ch = pattern[i]
+        if ch == "\\" and i + 1 < n:
+            if pattern[i + 1] == "p" and i + 2 < n and pattern[i + 2] == "{":
+                j = pattern.find("}", i + 3)
+                name = pattern[i + 3:j] if j > 0 else ""
+                if name in repl:
+                    out.append(repl[name] if in_set else f"[{repl[name]}]")
+                    i = j + 1
+                    continue
+            out.append(pattern[i:i + 2])
+            i += 2
+            continue
+        if ch == "[" and not in_set:
+            in_set = True
+            out.append(ch)
+            i += 1
+            if i < n and pattern[i] == "^":
+                out.append("^")
+                i += 1
+            if i < n and pattern[i] == "]":
+                out.append("]")
+                i += 1
+            continue
+        if ch == "]" and in_set:
+            in_set = False
+        out.append(ch)
+        i += 1
+    return "".join(out)
 
 
 class Regex:
